@@ -11,3 +11,74 @@ class infer_type:
 
     def returns(value):
         return S.csv_cell(value)
+
+
+# ------------------------------------------------------------------ _read_csv_from_file (C19)
+from pyvc.contract import exit_assert  # noqa: E402
+from contracts.specs import implies  # noqa: E402
+
+RCF = 'serif.csv._read_csv_from_file'
+
+
+def _setup_width(k):
+    def setup(I):
+        from pyvc.loops import fresh_of_sort
+        I.csv_first_row_width = k
+        return {'file_obj': fresh_of_sort(I, 'opaque', 'file_obj'), 'delimiter': fresh_of_sort(I, 'str', 'delimiter'),
+                'has_header': fresh_of_sort(I, 'bool', 'has_header')}
+    return setup
+
+
+@exit_assert(RCF)
+def rcf_exit(result, any_int_R, all_rows=None, has_header=None, header=None, rows=None):
+    """Faithfulness of the assembly, for an arbitrary data row R: no records -> an empty table;
+    otherwise one column per cell of the first record, named by the header cells (or col_<i>), with
+    one row per data record, and cell (R, j) is the typed value of the text of cell j of that
+    record (`csv_cell`: blank -> None, int, float, else the stripped text), or None when the
+    record is too short - records are never dropped, merged or reordered, cells never shifted."""
+    if all_rows is None:
+        return True
+    n = S.csv_nrows(all_rows)
+    if n == 0:
+        return len(result._underlying) == 0
+    k = len(header)
+    first = 1 if has_header else 0
+    ndata = n - first
+    if len(result._underlying) != k:
+        return False
+    if not all(len(result._underlying[j]._underlying) == ndata for j in range(k)):
+        return False
+    if has_header:
+        if not all(result._underlying[j]._name == S.csv_text(all_rows, 0, j) for j in range(k)):
+            return False
+    R = any_int_R
+    if not (0 <= R < ndata):
+        return True
+    rec = R + first
+    return all(
+        S.same(S.at(result._underlying[j]._underlying, R),
+               S.csv_cell(S.csv_text(all_rows, rec, j)) if j < S.csv_rowlen(all_rows, rec) else None)
+        for j in range(k))
+
+
+@contract(RCF, props=['C19'], variant='two-columns')
+class read_csv_from_file_2:
+    """C19 (assembly of the records into a table; first record of two cells, any number of records
+    of any lengths, with or without header): exit assertion `rcf_exit` on the real text, with
+    `csv.reader` as the trusted lexical layer and `_infer_type` by its discharged contract."""
+    params = {'file_obj': 'opaque', 'delimiter': 'str', 'has_header': 'bool'}
+    setup = _setup_width(2)
+    quant_prune = False
+
+
+@contract(RCF, props=['C19'], variant='one-column')
+class read_csv_from_file_1(read_csv_from_file_2):
+    """C19 (assembly, first record of ONE cell): blank lines / one-column files."""
+    setup = _setup_width(1)
+
+
+@contract(RCF, props=['C19'], variant='three-columns')
+class read_csv_from_file_3(read_csv_from_file_2):
+    """C19 (assembly, first record of THREE cells)."""
+    setup = _setup_width(3)
+    tier = 'thorough'
